@@ -55,6 +55,12 @@ def gen(seed, idx, tier):
   if big:
     spec, rejected = scen.pick_model(seed, idx, features={"pile": True, "tiny": False, "plane": True, "sleep": False}, size=str(r.choice(["m", "l"])), curated_p=0.0)
     spec["opt"]["jacobian"] = str(r.choice(["dense", "dense", "sparse"]))
+    if spec["opt"]["jacobian"] == "dense":
+      # put_model documents a limit on nv for dense Jacobians: the override above must stay inside the accepted input space
+      try:
+        core.make_model(spec)
+      except ValueError:
+        spec["opt"]["jacobian"] = "sparse"
     sleep = False
   else:
     spec, rejected = scen.pick_model(seed, idx, size="s" if r.random() < 0.6 else "m", curated_p=0.25)
